@@ -218,6 +218,8 @@ package queryparser
 //@    && (arr(e.Value.(*updogv1.Query_Expression_And_).And.Exprs) == nil || ((arr(e.Value.(*updogv1.Query_Expression_And_).And.Exprs) in hi) && !(arr(e.Value.(*updogv1.Query_Expression_And_).And.Exprs) in lo))) && (forall j idx(e.Value.(*updogv1.Query_Expression_And_).And.Exprs) :: ptW(e.Value.(*updogv1.Query_Expression_And_).And.Exprs[j], lo, hi)) ==> ptW(e, lo, hi)
 //@ axiom pt_or_intro: forall e *updogv1.Query_Expression, lo rset, hi rset :: { ptW(e, lo, hi) } e != nil && (e in hi) && !(e in lo) && kOr(e) && iref(e.Value) != nil && (iref(e.Value) in hi) && !(iref(e.Value) in lo) && e.Value.(*updogv1.Query_Expression_Or_).Or != nil && (e.Value.(*updogv1.Query_Expression_Or_).Or in hi) && !(e.Value.(*updogv1.Query_Expression_Or_).Or in lo)
 //@    && (arr(e.Value.(*updogv1.Query_Expression_Or_).Or.Exprs) == nil || ((arr(e.Value.(*updogv1.Query_Expression_Or_).Or.Exprs) in hi) && !(arr(e.Value.(*updogv1.Query_Expression_Or_).Or.Exprs) in lo))) && (forall j idx(e.Value.(*updogv1.Query_Expression_Or_).Or.Exprs) :: ptW(e.Value.(*updogv1.Query_Expression_Or_).Or.Exprs[j], lo, hi)) ==> ptW(e, lo, hi)
+// the leaves of a tree lie in the tree's window (by induction over the tree, like the frame rule: not machine-checked)
+//@ axiom leaf_in_window: forall x *updogv1.Query_Expression_Equal, e *updogv1.Query_Expression, lo rset, hi rset :: { ptW(e, lo, hi), leafOf(x, e) } ptW(e, lo, hi) && leafOf(x, e) ==> (x in hi) && !(x in lo)
 //@ axiom leaf_eq: forall x *updogv1.Query_Expression_Equal, e *updogv1.Query_Expression :: { leafOf(x, e) } kEq(e) ==> (leafOf(x, e) <==> x == e.Value.(*updogv1.Query_Expression_Eq).Eq)
 //@ axiom leaf_not: forall x *updogv1.Query_Expression_Equal, e *updogv1.Query_Expression :: { leafOf(x, e) } kNot(e) ==> (leafOf(x, e) <==> leafOf(x, e.Value.(*updogv1.Query_Expression_Not_).Not.Expr))
 //@ axiom leaf_and: forall x *updogv1.Query_Expression_Equal, e *updogv1.Query_Expression :: { leafOf(x, e) } kAnd(e) ==>
@@ -368,6 +370,7 @@ package queryparser
 //@   ensures [C11] q != nil && fresh(q) && ptOK(q.Expr)
 //@   ensures [C11] every_leaf_is_the_copy_of_a_leaf: forall x *updogv1.Query_Expression_Equal :: leafOf(x, q.Expr) ==> leafOf(x.src, query.Expr) && x.Column == x.src.Column
 //@   ensures [C11] placeholder_leaves_get_their_argument: forall x *updogv1.Query_Expression_Equal :: leafOf(x, q.Expr) && x.src.Placeholder > 0 ==> x.Placeholder == 0 && x.Value == values[x.src.Placeholder - 1]
+//@   assert after Walk: leaves_of_the_parsed_query_are_not_touched: forall x *updogv1.Query_Expression_Equal :: leafOf(x, query.Expr) ==> x.Placeholder == old(x.Placeholder) && x.Value == old(x.Value) && x.Column == old(x.Column)
 //@   ensures [C11] literal_leaves_are_kept: forall x *updogv1.Query_Expression_Equal :: leafOf(x, q.Expr) && x.src.Placeholder <= 0 ==> x.Placeholder == x.src.Placeholder && x.Value == x.src.Value
 //@   ensures [C11] group_by_is_copied: len(q.GroupBy) == len(query.GroupBy) && (forall j idx(q.GroupBy) :: q.GroupBy[j] == query.GroupBy[j])
 //@        && (arr(q.GroupBy) == nil || fresh(arr(q.GroupBy)))
